@@ -156,6 +156,55 @@ def _doc_chunk(seeds):
     return out
 
 
+# every kind of definition, with and without each optional part that ends it: adjacent definitions of a mixed document must
+# not run into each other in the printed text (F34: the shorthand query after a definition without body)
+DEFINITIONS = [
+    "{ a }", "query { a }", "query Q { a }", "query ($v: Int) { a }", "query @d { a }", "mutation { a }", "subscription S { a }",
+    "fragment F on T { a }", "schema { query: Q }", "schema @d { query: Q }", "extend schema @d", "extend schema { mutation: M }",
+    "extend schema @d { mutation: M }", "scalar S", "scalar S @d", "extend scalar S @d", "type T", "type T implements I", "type T @d",
+    "type T @d(a: { b: 1 })", "type T { a: Int }", "extend type T @d", "extend type T implements I", "extend type T { a: Int }",
+    "interface I", "interface I implements J", "interface I @d", "interface I { a: Int }", "extend interface I @d",
+    "extend interface I implements J", "extend interface I { a: Int }", "union U", "union U = A", "union U @d", "union U @d = A | B",
+    "extend union U @d", "extend union U = A", "enum E", "enum E @d", "enum E { A }", "extend enum E @d", "extend enum E { A }",
+    "input X", "input X @d", "input X { a: Int }", "input X { a: In = { b: 1 } }", "extend input X @d", "extend input X { a: Int }",
+    "directive @d on FIELD", "directive @d(a: In = { b: 1 }) on FIELD | QUERY", "directive @d repeatable on FIELD",
+    '"d" type T', '"""d""" query { a }', '"d" scalar S',
+]
+
+
+def _pair_chunk(pairs):
+    from graphql import parse, print_ast, GraphQLError
+    from graphql.utilities import ast_to_dict
+    v = []
+    n = 0
+    for parts in pairs:
+        text = " ".join(parts)
+        try:
+            singles = [parse(t, no_location=True).definitions[0] for t in parts]
+            doc = parse(text, no_location=True)
+        except GraphQLError:
+            continue
+        if list(doc.definitions) != singles:
+            continue        # the source text itself is read differently (not the printer's doing)
+        n += 1
+        p1 = print_ast(doc)
+        try:
+            d2 = parse(p1, no_location=True)
+        except GraphQLError as e:
+            v.append(("printed-text-does-not-parse", text, {"printed": p1, "error": str(e)[:150]}))
+            continue
+        if d2 != doc:
+            v.append(("reparse-differs", text, {"printed": p1}))
+        elif print_ast(d2) != p1:
+            v.append(("print-not-a-fixed-point", text, {"first": p1, "second": print_ast(d2)}))
+        # programmatic route: the same definitions assembled into a document node
+        from graphql.language import DocumentNode
+        p3 = print_ast(DocumentNode(definitions=tuple(singles)))
+        if p3 != p1:
+            v.append(("programmatic-tree-roundtrip-differs", text, {"printed": p3, "parsed_print": p1}))
+    return [(n, v)]
+
+
 def _string_chunk(items):
     """items: ("raw"|"bval"|"qval", text)"""
     from graphql.language import parse_value, print_ast, StringValueNode
@@ -261,6 +310,16 @@ def run(tier: str, rd):
                 docrecs.append(rec)
             for clause, case, detail in v:
                 vd.violation(clause, {"seed": sd, "text": case[:500]}, detail)
+    pairs = [(a, b) for a in DEFINITIONS for b in DEFINITIONS]
+    if tier != "quick":
+        pairs += [(a, b, c) for a in DEFINITIONS[::2] for b in DEFINITIONS[:12] for c in DEFINITIONS[1::3]]
+    n_pairs = 0
+    for lst in pmap(_pair_chunk, pairs, chunk=400):
+        for n, v in lst:
+            n_pairs += n
+            for clause, case, detail in v:
+                vd.violation(clause, {"text": case}, detail)
+    ev.extra["definition_sequences"] = n_pairs
     allrecs = recs + docrecs
     hits = {}
     for bi in range(0, len(allrecs), 60000):
